@@ -2414,15 +2414,15 @@ def BHJM_cylinder_segment(
     #   1. inside and not_on_surface are not the same! Cant just put to true.
 
     # return 0 when all points are on surface
+    # all fields are set to 0 on the surface, so that B = mu0*H + J holds there as well
     if field == "J":
-        BHJM[~mask_inside] = 0
+        BHJM[~(mask_inside & mask_not_on_surf)] = 0
         return BHJM
 
     if field == "M":
-        BHJM[~mask_inside] = 0
+        BHJM[~(mask_inside & mask_not_on_surf)] = 0
         return BHJM / MU0
 
-    # B and H are set to 0 on the surface
     if not np.any(mask_not_on_surf):
         return BHJM * 0
 
